@@ -530,8 +530,17 @@ pub proof fn lemma_decode_of_encode(v: nat, rest: Seq<u8>)
 //@   spec
     requires input.wf(),
     ensures
-        r matches Ok((i, v)) ==> ({ let k = i.position - input.position; 1 <= k <= 5 + 5 && input.advanced(i, k) && i.wf() && (input.aligned() ==> i.aligned()) }),
+        r matches Ok((i, v)) ==> ({ let k = i.position - input.position; 1 <= k <= 10 && input.advanced(i, k) && i.wf() && (input.aligned() ==> i.aligned())
+            && accepts_u64(input.bytes@, k) && v as nat == valk(input.bytes@, k as nat) }),
+        // (only this direction: the range-error closure has no contract, so `Incomplete => truncated` is not provable here)
         (input.bytes.len() < 10 && all_cont(input.bytes@, input.bytes.len() as int)) ==> (r matches Err(ParseError::Incomplete(_))),
+        // every canonical encoding of a value that fits u32 is accepted
+        forall|k: int| accepts_u64(input.bytes@, k) && valk(input.bytes@, k as nat) <= u32::MAX ==> r is Ok,
+//@   after /let \(i, num\) = leb128_u64\(input\)\?;/
+    proof {
+        let kk = i.position - input.position;
+        assert forall|k: int| accepts_u64(input.bytes@, k) implies k == kk by { lemma_shape_unique(input.bytes@, k, kk); }
+    }
 //@ end
 
 //@ fn rust/automerge/src/storage/parse/leb128.rs | nonzero_leb128_u64
@@ -539,7 +548,8 @@ pub proof fn lemma_decode_of_encode(v: nat, rest: Seq<u8>)
 //@   spec
     requires input.wf(),
     ensures
-        r matches Ok((i, v)) ==> ({ let k = i.position - input.position; 1 <= k <= 10 && input.advanced(i, k) && i.wf() }),
+        r matches Ok((i, v)) ==> ({ let k = i.position - input.position; 1 <= k <= 10 && input.advanced(i, k) && i.wf()
+            && accepts_u64(input.bytes@, k) && v.get() as nat == valk(input.bytes@, k as nat) }),
         (input.bytes.len() < 10 && all_cont(input.bytes@, input.bytes.len() as int)) ==> (r matches Err(ParseError::Incomplete(_))),
 //@ end
 
